@@ -130,7 +130,13 @@ def faults(quick: bool):
         out.append(("borderline:member:%s" % nm, ("files", {"main/model.yml": C09.VALID_MAIN + "Bl: !record\n  fields:\n    %s: int\n  computedFields:\n    %sValue: %s\nBlP: !protocol\n  sequence:\n    %s: Bl\n" % (nm, nm, nm, nm)})))
     for nm in (C08.TYPE_NAMES if not quick else C08.TYPE_NAMES[::7]):
         out.append(("borderline:type:%s" % nm, ("files", {"main/model.yml": C09.VALID_MAIN + "%s: !record\n  fields:\n    x: int\nBlP: !protocol\n  sequence:\n    s: %s\n" % (nm, nm)})))
-    return out
+    # one job per fault id: two jobs with the same id would share a case directory (and remove it under each other)
+    seen, unique = set(), []
+    for fid, fault in out:
+        if fid not in seen:
+            seen.add(fid)
+            unique.append((fid, fault))
+    return unique
 
 
 def make_case(base, outcfg, fault):
